@@ -8877,8 +8877,11 @@ bool SoPlexBase<R>::_parseSettingsLine(char* line, const int lineNumber)
    }
    else
    {
-      *line = '\0';
-      line++;
+      if(*line != '\0')
+      {
+         *line = '\0';
+         line++;
+      }
 
       // search for the ':' char in the line
       while(*line == ' ' || *line == '\t' || *line == '\r')
@@ -8920,8 +8923,11 @@ bool SoPlexBase<R>::_parseSettingsLine(char* line, const int lineNumber)
    }
    else
    {
-      *line = '\0';
-      line++;
+      if(*line != '\0')
+      {
+         *line = '\0';
+         line++;
+      }
 
       // search for the '=' char in the line
       while(*line == ' ' || *line == '\t' || *line == '\r')
@@ -9405,8 +9411,11 @@ bool SoPlexBase<R>::parseSettingsString(char* string)
    }
    else
    {
-      *line = '\0';
-      line++;
+      if(*line != '\0')
+      {
+         *line = '\0';
+         line++;
+      }
 
       // search for the ':' char in the line
       while(*line == ' ' || *line == '\t' || *line == '\r')
@@ -9446,8 +9455,11 @@ bool SoPlexBase<R>::parseSettingsString(char* string)
    }
    else
    {
-      *line = '\0';
-      line++;
+      if(*line != '\0')
+      {
+         *line = '\0';
+         line++;
+      }
 
       // search for the '=' char in the line
       while(*line == ' ' || *line == '\t' || *line == '\r')
